@@ -3,4 +3,6 @@
 namespace sim {
 void base_knobs(Rng &r, Plan &p, bool timing_sensitive);
 std::string rand_text(Rng &r, size_t maxlen);
+Json oracle_list(std::initializer_list<const char *> l);
+std::vector<std::string> q_real(); std::vector<std::string> q_stubs(); std::vector<std::string> q_assume();
 }
